@@ -10,6 +10,7 @@ import (
 	"bufio"
 	"bytes"
 	"encoding/binary"
+	"encoding/gob"
 	"encoding/hex"
 	"encoding/json"
 	"fmt"
@@ -599,6 +600,68 @@ func brRoundTrip(w *gen.Writer, l []query.BranchRepos, class string) ([]byte, []
 	return enc, append(sers, nil) // nil: the empty slice, so that `known` is never empty
 }
 
+// gobCase: the codecs as encoding/gob uses them (gob calls MarshalBinary / UnmarshalBinary of values that implement
+// them): a whole query / RepoList travels through gob and must come back equal. Go oracle only.
+func gobCase(w *gen.Writer, keys []string, brs []query.BranchRepos, m zoekt.ReposMap) {
+	c := gen.Case{Class: "gob-end-to-end", Nontrivial: true}
+	fail := func(why string) {
+		if c.Go == "" {
+			c.Go, c.Key = why, "roundtrip:gob"
+		}
+	}
+	func() {
+		defer func() {
+			if r := recover(); r != nil {
+				fail(fmt.Sprint("panic: ", r))
+			}
+		}()
+		fs := &query.FileNameSet{Set: map[string]struct{}{}}
+		for _, k := range keys {
+			fs.Set[k] = struct{}{}
+		}
+		type envelope struct {
+			Q    []query.Q
+			List zoekt.RepoList
+		}
+		gob.Register(&query.FileNameSet{})
+		gob.Register(&query.BranchesRepos{})
+		gob.Register(&query.And{})
+		in := envelope{Q: []query.Q{&query.And{Children: []query.Q{fs, &query.BranchesRepos{List: brs}}}}, List: zoekt.RepoList{ReposMap: m}}
+		var buf bytes.Buffer
+		if err := gob.NewEncoder(&buf).Encode(&in); err != nil {
+			fail("gob encode: " + err.Error())
+			return
+		}
+		var out envelope
+		if err := gob.NewDecoder(&buf).Decode(&out); err != nil {
+			fail("gob decode: " + err.Error())
+			return
+		}
+		and, ok := out.Q[0].(*query.And)
+		if !ok || len(and.Children) != 2 {
+			fail("gob changed the query shape")
+			return
+		}
+		fs2, ok1 := and.Children[0].(*query.FileNameSet)
+		br2, ok2 := and.Children[1].(*query.BranchesRepos)
+		if !ok1 || !ok2 {
+			fail("gob changed the query node kinds")
+			return
+		}
+		if showSet(fs2.Set) != showSet(fs.Set) {
+			fail("FileNameSet changed through gob")
+		}
+		if showBrList(br2.List) != showBrList(brs) {
+			fail("BranchesRepos changed through gob")
+		}
+		if !rmEqual(m, out.List.ReposMap) {
+			fail("ReposMap changed through gob")
+		}
+	}()
+	c.Detail = gen.Detail(map[string]any{"kind": "gob"})
+	w.Emit(c)
+}
+
 // ---------------------------------------------------------------- generators
 
 var names = []string{"", "a", "HEAD", "main", "dev", "日本語", "é", "\xff\xfe", "a b", "x/y.go", "\x00", "refs/heads/main"}
@@ -926,6 +989,9 @@ func main() {
 				decodeCase(w, "br", mutate(r, enc), "mutated")
 			}
 		}
+	}
+	for i := 0; i < f.N(100, 2000); i++ {
+		gobCase(w, genKeys(r), genBrList(r), genRMap(r))
 	}
 	// 2. hand-written version-1 ReposMap encodings (the encoder only writes version 2)
 	for _, b := range [][]byte{
